@@ -1640,7 +1640,10 @@ func (pc *PeerConnection) startRTPReceivers(remoteDesc *SessionDescription, curr
 				Direction: RTPTransceiverDirectionSendrecv,
 			})
 			if err != nil {
-				pc.log.Warnf("Could not add transceiver for remote SSRC %d: %s", incomingTrack.ssrcs[0], err)
+				pc.log.Warnf(
+					"Could not add transceiver for remote track (mid %q, ssrcs %v, rids %v): %s",
+					incomingTrack.mid, incomingTrack.ssrcs, incomingTrack.rids, err,
+				)
 
 				continue
 			}
